@@ -240,6 +240,26 @@ func driveC14(args []string) error {
 			run(fmt.Sprintf("opt/%d/fullA/%d", gi, round), graphics[gi], []opt{mkPal(&fullA)})
 		}
 	}
+	// one option list with spare capacity, decoded with as its first one, two, three entries in turn (round 10): the
+	// caller's slice is an input - what lies beyond the length handed over is not Decode's to write
+	for k := 0; k < 12; k++ {
+		base := make([]opt, 3, 8)
+		for i := range base {
+			base[i] = atoms[(k+2*i)%len(atoms)]()
+		}
+		dbase := make([]decode.DecodeOption, 3, 8)
+		jbase := make([]interface{}, 3, 8)
+		for i := range base {
+			dbase[i], jbase[i] = base[i].o, base[i].j
+		}
+		g := graphics[k%len(graphics)]
+		for _, n := range []int{1, 2, 3, 0, 3} {
+			fl := decFlags{others: false, render: true, opts: dbase[:n], optsJ: jbase[:n], rect: image.Rect(0, 0, 64, 64)}
+			nc, acc := traceDecode(dec.Next(), fmt.Sprintf("opt/shared-backing/%d/first%d", k, n), g, fl)
+			count(stats, "options", nc, acc)
+			stats["options.shared_backing"]++
+		}
+	}
 	// all option lists of length <= 3 over the five atoms (colour models drawn at random)
 	for gi, g := range graphics {
 		if !thorough() && gi%3 != int(seed()%3) {
